@@ -82,7 +82,7 @@ def concrete(d, rnd):
         dm = 6.0
     vp = {"visit_type": "random" if d["vt"] == "random" else "weekly",
           "patient_number": {"pos": 4, "one": 1, "zero": 0, "neg": -3, "str": "4", "none": None, "true": True, "float": 4.0}[d["pn"]],
-          "first_visit_mean": 0.0, "first_visit_std": 0.4 if d["std"] == "ok" else -0.4,
+          "first_visit_mean": 0.0, "first_visit_std": {"ok": 0.4, "neg": -0.4, "true": True}[d["std"]],
           "time_follow_up_mean": fu[0], "time_follow_up_std": fu[1],
           "distance_visit_mean": dm,
           "distance_visit_std": {"pos": 0.2 * max(dm, 1.0), "zero": 0.0, "large": 0.9 * max(dm, 1.0)}[d["dstd"]]}
@@ -97,8 +97,10 @@ def concrete(d, rnd):
 def run_design(d, rnd, seed, watchdog=10):
     rec = dict(d)
     rec.update(outcome="?", individuals_exact=False, ages_increasing_unique=False, ages_rounded=False, values_in_unit_interval=False,
-               one_param_set_each=False, nothing_generated=False, error="")
+               one_param_set_each=False, nothing_generated=False, design_reusable=False, error="")
     feats, vp = concrete(d, rnd)
+    import copy
+    vp_before = copy.deepcopy({k: v for k, v in vp.items() if k != "df_visits"})
     model = model_with(int(d["src"]), 3, str(d.get("noise", "diag")))
     np_state = np.random.get_state()[1].tobytes()
     old = signal.signal(signal.SIGALRM, _alarm)
@@ -132,6 +134,16 @@ def run_design(d, rnd, seed, watchdog=10):
         except Exception:
             n_ip = -1
         rec["one_param_set_each"] = n_ip == len(ids_out)
+        # the caller's design is left as it was, and serves a second simulation that honours it just as well (same seed: same cohort)
+        same_design = {k: v for k, v in vp.items() if k != "df_visits"} == vp_before
+        signal.alarm(watchdog)
+        with warnings.catch_warnings():
+            warnings.simplefilter("ignore")
+            res2 = model.simulate(algorithm="simulate", features=feats, visit_parameters=vp, seed=seed)
+        signal.alarm(0)
+        df2 = res2.data.to_dataframe()
+        rec["design_reusable"] = bool(same_design and df2.shape == df.shape and np.array_equal(df2["TIME"].values, df["TIME"].values)
+                                      and np.allclose(df2[[f for f in feats]].values.astype(float), vals, rtol=0, atol=0, equal_nan=True))
     except _Timeout:
         rec["outcome"] = "timeout"
     except LeaspyAlgoInputError as e:
